@@ -5,7 +5,7 @@ driver for the rec area: one op per line in, canonical dump of the whole record 
 
 Protocol (arguments that are texts are hex-encoded UTF-8, `-` = empty):
   new                     fresh runtime
-  set0 H | setf I H | setnf N | sub P R | gsub P R | ofs H | fs H | ofmt H | strip 0/1
+  set0 H | self0 ($0 = $0) | setf I H | setnf N | sub P R | gsub P R | ofs H | fs H | ofmt H | strip 0/1
   getline H | getline (at EOF) | next H (main-loop record read) | read J | readnf
 The regular-expression matcher and the literal sub/gsub below exist only so that the driver
 can feed concrete values to the model; they are not part of any proof.
@@ -163,6 +163,7 @@ def step (d : DSt) (line : String) : DSt × String :=
   let m := rexMatch
   match ws with
   | ["set0", h] => ok (Hawk.Rec.step m st (.set0 (unhex h)))
+  | ["self0"] => ok (Hawk.Rec.step m st (.set0 (readVal st.r 0)))   -- $0 = $0
   | ["setf", i, h] => match i.toInt? with
     | some i =>
       if i < 0 then ({ d with dead := true }, "ERR eposidx " ++ dump st)
@@ -175,7 +176,9 @@ def step (d : DSt) (line : String) : DSt × String :=
     | none => (d, "bad-op")
   | [op, p, r] =>
     if op == "sub" || op == "gsub" then
-      let (res, cnt) := litSub (unhex p) (unhex r) (if op == "sub" then 1 else 0) st.r.line
+      -- `&` in the replacement stands for the matched text (= the literal pattern)
+      let repl := (unhex r).flatMap fun c => if c == '&' then unhex p else [c]
+      let (res, cnt) := litSub (unhex p) repl (if op == "sub" then 1 else 0) st.r.line
       if cnt > 0 then ok (Hawk.Rec.step m st (.rewrite res)) s!" c={cnt}" else ok st " c=0"
     else (d, "bad-op")
   | ["ofs", h] => ok (Hawk.Rec.step m st (.ofs (unhex h)))
